@@ -139,6 +139,26 @@ def check_grid(case, R):
                     R.bad("update_time_vector=fresh-settings", "C03:update_time_vector-grid-differs-from-fresh-settings[%s,%s]" % (form, regime), {"form": form, "previous": prev, "start": start, "end": end, "dt": dt, "points": int(len(tv3)), "expected_points": int(len(exp)), "last": tv3[-2:].tolist(), "expected_last": exp[-2:].tolist()})
                 else:
                     R.ok("update_time_vector=fresh-settings")
+        # moving the start year alone (update_time_vector(start=...), the sim_start setter - Project.load_databook does that): the grid
+        # is start + k*dt and still reaches the end year that is in force
+        for off in (0.3 * dt, 1.7, 10.2):
+            for how in ("update_time_vector", "setter"):
+                s4 = at.ProjectSettings(sim_start=start - off, sim_end=end, sim_dt=dt)
+                if how == "setter":
+                    s4.sim_start = start
+                else:
+                    s4.update_time_vector(start=start)
+                e4 = float(s4.sim_end)  # the end year in force (aligned to the previous grid, >= the requested one)
+                tv4 = np.array(s4.tvec, dtype=float)
+                R.count("start_moves_checked")
+                tol4 = 1e-9 * max(1.0, abs(e4))
+                okk = len(tv4) >= 1 and abs(tv4[0] - start) <= 1e-9 and (len(tv4) < 2 or np.all(np.abs(np.diff(tv4) - dt) <= 1e-9)) and tv4[-1] >= e4 - tol4 and tv4[-1] >= end - tol4 and (len(tv4) < 2 or tv4[-2] < e4 + tol4 - 0 * dt)
+                if okk and len(tv4) >= 2 and tv4[-2] >= e4 - tol4 and abs(tv4[-2] - e4) > tol4:
+                    okk = False  # overshoots: the previous point already reached the end year
+                if not okk:
+                    R.bad("grid-after-start-move", "C03:grid-after-moving-the-start-year[%s,%s]" % (how, regime), {"previous_start": start - off, "start": start, "end_requested": end, "end_in_force": e4, "dt": dt, "points": int(len(tv4)), "first": tv4[:2].tolist(), "last": tv4[-2:].tolist()})
+                else:
+                    R.ok("grid-after-start-move")
         # changing dt afterwards re-aligns the end
         s2 = at.ProjectSettings(sim_start=start, sim_end=end, sim_dt=1.0)
         s2.sim_dt = dt
